@@ -33,10 +33,11 @@ theorem hexChar_gen (d : Nat) (h : d < 16) :
 
 theorem nib_lt (v i : Nat) : nib v i < 16 := Nat.mod_lt _ (by decide)
 
-/-- where the encoder is inside one response; the index is `temp_size` (digits still to come after the current one) -/
+/-- where the encoder is inside one response; for p1/p2 the index is the number of digits requested (`temp_size + 1`, may be 0),
+    for d3/d4 it is `temp_size` (digits still to come after the current one) -/
 inductive Ph where
-  | p1 (i : Nat)      -- state 1: waiting for ready to present '='
-  | p2 (i : Nat)      -- state 2: '=' presented
+  | p1 (n : Nat)      -- state 1: waiting for ready to present '='
+  | p2 (n : Nat)      -- state 2: '=' presented
   | d3 (i : Nat)      -- state 3: waiting for ready to present digit i
   | d4 (i : Nat)      -- state 4: digit i presented
   | p5                -- state 5: about to present '!'
@@ -46,15 +47,15 @@ deriving Repr, DecidableEq
 
 /-- characters still to be handed over -/
 def rest (wv v : Nat) : Ph → List Nat
-  | .p1 i | .p2 i => (61 :: (hexUpper (i + 1) v ++ [33])).map (· % 2 ^ wv)
+  | .p1 n | .p2 n => (61 :: (hexUpper n v ++ [33])).map (· % 2 ^ wv)
   | .d3 i | .d4 i => (hexUpper (i + 1) v ++ [33]).map (· % 2 ^ wv)
   | .p5 | .p6 => [33 % 2 ^ wv]
   | .done => []
 
 /-- number of cycles with `ready` high that certainly suffice to finish -/
 def need : Ph → Nat
-  | .p1 i => 2 * i + 6
-  | .p2 i => 2 * i + 5
+  | .p1 n => 2 * n + 4
+  | .p2 n => 2 * n + 3
   | .d3 i => 2 * i + 4
   | .d4 i => 2 * i + 3
   | .p5 => 2
@@ -63,8 +64,8 @@ def need : Ph → Nat
 
 /-- the phase invariant: FSM state, sampled value, remaining size, current nibble, and what is on the wires -/
 def Inv (wv v : Nat) : Ph → CMDResponse.St → RespW → Prop
-  | .p1 i, s, w => s.state = 1 ∧ s.temp = (v : Int) ∧ s.temp_size = (i : Int) ∧ w.valid = 0
-  | .p2 i, s, w => s.state = 2 ∧ s.temp = (v : Int) ∧ s.temp_size = (i : Int) ∧ w.valid = 1 ∧ w.v = 61 % 2 ^ wv
+  | .p1 n, s, w => s.state = 1 ∧ s.temp = (v : Int) ∧ s.temp_size = (n : Int) - 1 ∧ w.valid = 0
+  | .p2 n, s, w => s.state = 2 ∧ s.temp = (v : Int) ∧ s.temp_size = (n : Int) - 1 ∧ w.valid = 1 ∧ w.v = 61 % 2 ^ wv
   | .d3 i, s, w => s.state = 3 ∧ s.temp = (v : Int) ∧ s.temp_size = (i : Int) ∧ s.aux = (nib v i : Nat) ∧ w.valid = 0
   | .d4 i, s, w => s.state = 4 ∧ s.temp = (v : Int) ∧ s.temp_size = (i : Int) ∧ w.valid = 1 ∧
       w.v = hexChar (nib v i) % 2 ^ wv
@@ -99,21 +100,29 @@ theorem resp_step (wv v : Nat) (ph : Ph) (s : CMDResponse.St) (w : RespW) (i : R
     simp only [Inv] at h
     obtain ⟨rfl, rfl, rfl, rfl⟩ := h
     rcases hr with rfl | hr
-    · exact ⟨.p1 i, ⟨aux, 1, v, i⟩, ⟨0, vv⟩, by simp [respCycle, respRaises, CMDResponse.step, upd, Py.truthy],
+    · exact ⟨.p1 i, ⟨aux, 1, v, (i : Int) - 1⟩, ⟨0, vv⟩, by simp [respCycle, respRaises, CMDResponse.step, upd, Py.truthy],
         by simp [Inv], by simp [xfer], by simp [need, rdyBit]⟩
-    · exact ⟨.p2 i, ⟨aux, 2, v, i⟩, ⟨1, 61 % 2 ^ wv⟩,
+    · exact ⟨.p2 i, ⟨aux, 2, v, (i : Int) - 1⟩, ⟨1, 61 % 2 ^ wv⟩,
         by simp [respCycle, respRaises, CMDResponse.step, upd, Py.truthy, hr, put_61],
         by simp [Inv], by simp [xfer, rest], by simp [need, rdyBit, hr] <;> omega⟩
-  | p2 i =>
+  | p2 n =>
     simp only [Inv] at h
     obtain ⟨rfl, rfl, rfl, rfl, rfl⟩ := h
     rcases hr with rfl | hr
-    · exact ⟨.p2 i, ⟨aux, 2, v, i⟩, ⟨1, 61 % 2 ^ wv⟩, by simp [respCycle, respRaises, CMDResponse.step, upd],
+    · exact ⟨.p2 n, ⟨aux, 2, v, (n : Int) - 1⟩, ⟨1, 61 % 2 ^ wv⟩, by simp [respCycle, respRaises, CMDResponse.step, upd],
         by simp [Inv], by simp [xfer], by simp [need, rdyBit]⟩
-    · have hneg : ¬ ((i : Int) * 4 < 0) := by omega
-      exact ⟨.d3 i, ⟨(nib v i : Nat), 3, v, i⟩, ⟨0, 61 % 2 ^ wv⟩,
-        by simp [respCycle, respRaises, CMDResponse.step, upd, hr, hneg, nib_gen],
-        by simp [Inv], by simp [xfer, rest, hr], by simp [need, rdyBit, hr] <;> omega⟩
+    · cases n with
+      | zero =>
+        -- no digits requested (size 0): straight to the terminator (repair 21add98)
+        exact ⟨.p5, ⟨aux, 5, v, ((0 : Nat) : Int) - 1⟩, ⟨0, 61 % 2 ^ wv⟩,
+          by simp [respCycle, respRaises, CMDResponse.step, upd, hr],
+          by simp [Inv], by simp [xfer, rest, hr, hexUpper], by simp [need, rdyBit, hr]⟩
+      | succ i =>
+        have e1 : (((i + 1 : Nat) : Int) - 1) = (i : Int) := by omega
+        have hneg : ¬ ((i : Int) < 0) := by omega
+        exact ⟨.d3 i, ⟨(nib v i : Nat), 3, v, i⟩, ⟨0, 61 % 2 ^ wv⟩,
+          by rw [e1]; simp [respCycle, respRaises, CMDResponse.step, upd, hr, hneg, nib_gen],
+          by simp [Inv], by simp [xfer, rest, hr, hexUpper], by simp [need, rdyBit, hr] <;> omega⟩
   | d3 i =>
     simp only [Inv] at h
     obtain ⟨rfl, rfl, rfl, rfl, rfl⟩ := h
@@ -190,17 +199,16 @@ theorem resp_run_inv (wv v : Nat) (cs : List RespIn) (hst : ∀ i ∈ cs, i.star
     · rw [r1, r2, List.append_assoc]
     · rw [readyCount_cons]; omega
 
-/-- the start cycle: idle encoder, `start_resp` high, value `v` and size `s ≥ 1` on the inputs -/
-theorem resp_start (wv v s : Nat) (hs : 1 ≤ s) (st : CMDResponse.St) (w : RespW) (i : RespIn)
+/-- the start cycle: idle encoder, `start_resp` high, value `v` and size `s` (any, 0 included) on the inputs -/
+theorem resp_start (wv v s : Nat) (st : CMDResponse.St) (w : RespW) (i : RespIn)
     (h0 : st.state = 0) (hv : w.valid = 0) (hi : i.start ≠ 0) (hvin : i.vin = v) (hsz : i.size = s) :
-    ∃ s' w', respCycle wv st w i = some (s', w') ∧ Inv wv v (.p1 (s - 1)) s' w' ∧ xfer w i = [] := by
+    ∃ s' w', respCycle wv st w i = some (s', w') ∧ Inv wv v (.p1 s) s' w' ∧ xfer w i = [] := by
   obtain ⟨aux, state, temp, tsz⟩ := st
   obtain ⟨valid, vv⟩ := w
   obtain ⟨start, vin, size, ready⟩ := i
   simp only at h0 hv hi hvin hsz
   subst h0 hv hvin hsz
-  have e : ((size : Int) - 1) = ((size - 1 : Nat) : Int) := by omega
-  exact ⟨⟨aux, 1, vin, ((size - 1 : Nat) : Int)⟩, ⟨0, vv⟩,
-    by simp [respCycle, respRaises, CMDResponse.step, upd, Py.truthy, hi, e], by simp [Inv], by simp [xfer]⟩
+  exact ⟨⟨aux, 1, vin, (size : Int) - 1⟩, ⟨0, vv⟩,
+    by simp [respCycle, respRaises, CMDResponse.step, upd, Py.truthy, hi], by simp [Inv], by simp [xfer]⟩
 
 end C20
